@@ -449,12 +449,14 @@ CONTRACTS.update({
         'ensures': ['spec_ser_ok(self, data)'],
     },
     # deSerialize: the board, flags and clocks are exactly what the compact form encodes (the inverse of spec_ser_ok), the
-    # bitboards are the from-scratch bitboards of that board, the evaluator pointer is kept.  Precondition from the call
+    # evaluator pointer is kept; every table access in range, no signed overflow in the material sums.  NOT in the contract:
+    # bitboards == from-scratch bitboards (wf_bb: with that clause cbmc does not finish in 1800 s; without it 256 s) and the
+    # hash / material folds (DESIGN 13.14).  Precondition from the call
     # sites (data always comes from serialize): nibbles are piece codes, the ep byte is a square or 0xff.
     'Position_deSerialize': {
         'requires': [_SELF, 'NN_OK(self)', '__CPROVER_is_fresh(data, sizeof(*data))', 'PIECEVALUES_OK', 'ser_nibbles_ok(data)', 'ser_flags_ok(data)'],
         'assigns': ['*self', 'self->nnEval != 0: self->nnEval->ghost_calls'],
-        'ensures': ['spec_deser_ok(self, data)', 'wf_bb(self)', 'FLAGS_OK(self)', 'self->nnEval == __CPROVER_old(self->nnEval)'],
+        'ensures': ['spec_deser_ok(self, data)', 'FLAGS_OK(self)', 'self->nnEval == __CPROVER_old(self->nnEval)'],
     },
     'Position_bookHash': {
         'requires': [_SELF, '0 <= self->halfMoveClock'],
@@ -541,7 +543,7 @@ void h_removePiece(void) { struct MatId* m; int pt; havoc_tables(); MatId_remove
 void h_serialize(void) { struct Position* p; struct SerializeData* d; havoc_tables(); Position_serialize(p, d); CANARY_POINT; }
 void h_deSerialize(void) { struct Position* p; struct SerializeData* d; havoc_tables(); Position_deSerialize(p, d); CANARY_POINT; }
 /* round trip as a lemma over the two contracts: deSerialize(serialize(a)) has a's board, side, castling rights, ep square and
-   clocks (clocks within the widths of the compact form: 8 and 16 bits) and consistent bitboards */
+   clocks (clocks within the widths of the compact form: 8 and 16 bits) */
 void h_ser_roundtrip(void) {
     struct Position a, b; struct SerializeData d; struct NNEvaluator nn;
     havoc_tables();
@@ -552,7 +554,6 @@ void h_ser_roundtrip(void) {
     Position_serialize(&a, &d);
     Position_deSerialize(&b, &d);
     __CPROVER_assert(same_basic(&b, &a), "deSerialize(serialize(p)): board, side, castling, ep, clocks equal to p");
-    __CPROVER_assert(wf_bb(&b), "deSerialize(serialize(p)): bitboards consistent with the board");
     CANARY_POINT;
 }
 void h_historyHash(void) { struct Position* p; havoc_tables(); Position_historyHash(p); CANARY_POINT; }
@@ -634,10 +635,7 @@ GROUPS = [
     Group('bookHash', 'h_bookHash', enforce='Position_bookHash', min_props=3),
 ]
 # fold_lemma (update lemma of the fold ghosts) is built but does not close (see DESIGN 13.3): not part of the claim.
-# deSerialize (whole-function contract: board/flags/clocks decoded, bitboards from scratch) did not finish in 1800 s
-# (DESIGN 13.14); ser_roundtrip is a lemma over the serialize and deSerialize contracts and closes in 11 s, but it rests
-# on the unproved deSerialize contract: neither is part of the claim.
-_UNCLAIMED = ('fold_lemma', 'deSerialize', 'ser_roundtrip')
+_UNCLAIMED = ('fold_lemma',)
 PROPERTIES = {'C02': [g.name for g in GROUPS if g.name not in _UNCLAIMED]}
 ASSUMPTIONS = {'C02': [
     'fold ghosts: ghost_H/ghost_PH/ghost_MAT/ghost_WM/.. stand for the from-scratch folds (xor of Zobrist keys, sums of material ids and piece values) of the current board; the single-square update lemma behind them (commutativity and associativity of xor / modular addition over 64 squares) is NOT machine-checked (group fold_lemma exists, SAT proof does not finish)',
@@ -647,7 +645,7 @@ ASSUMPTIONS = {'C02': [
     'material sums stay within +-10^6 (precondition; follows from at most 32 men of value <= 9900)',
     'induction over move histories from the per-operation contracts is a paper argument',
 ]}
-NOT_DECIDED = {'C02': ['FEN text write/read round trip (std::string)', 'deSerialize (contract written, whole-function proof does not finish in 30 min; the round-trip lemma over the two contracts closes but is not claimed) and computeZobristHash (loops recomputing the folds)', 'Position copy construction/assignment', 'negative half-move clock accepted by readFEN (outside every extracted function)']}
+NOT_DECIDED = {'C02': ['FEN text write/read round trip (std::string)', 'deSerialize: bitboards, hash keys, material id and material sums it recomputes (only board, flags, clocks and memory safety are under contract)', 'computeZobristHash (loop recomputing the folds)', 'Position copy construction/assignment', 'negative half-move clock accepted by readFEN (outside every extracted function)']}
 
 MUTANTS = [
     dict(name='setPiece_no_phash', file='lib/texellib/position.cpp', pattern=r'            if \(piece == Piece::WPAWN\) \{\n                wMtrlPawns_ \+= pVal;\n                pHashKey \^= psHashKeys\[Piece::WPAWN\]\[sq\];', repl='            if (piece == Piece::WPAWN) {\n                wMtrlPawns_ += pVal;', groups=['setPiece']),
@@ -661,5 +659,6 @@ MUTANTS = [
     dict(name='castleSqMask_h8', file='lib/texellib/position.cpp', pattern=r'castleSqMask\[H8\] &= ~\(1 << H8_CASTLE\);', repl='castleSqMask[H8] &= ~(1 << A8_CASTLE);', groups=['staticInitialize']),
     dict(name='unMakeMove_promotion_colour', file='lib/texellib/position.cpp', pattern=r'        p = wtm \? Piece::WPAWN : Piece::BPAWN;\n        setPiece\(move.from\(\), p\);', repl='        p = wtm ? Piece::WPAWN : Piece::WPAWN;\n        setPiece(move.from(), p);', groups=['make_unmake_split']),
     dict(name='serialize_ep_bits', file='lib/texellib/position.cpp', pattern=r'flags = \(flags << 8\) \| \(epSquare.asInt\(\) & 0xff\);', repl='flags = (flags << 8) | (epSquare.asInt() & 0x3f);', groups=['serialize']),
+    dict(name='deSerialize_castle_bits', file='lib/texellib/position.cpp', pattern=r'castleMask = flags & 0xf;', repl='castleMask = flags & 0x7;', groups=['deSerialize']),
     dict(name='matid_signed_again', file='lib/texellib/material.hpp', pattern=r'hash = \(int\)\(\(unsigned int\)hash \+ \(unsigned int\)materialId\[pType\]\);', repl='hash += materialId[pType];', groups=['MatId_addPiece']),
 ]
